@@ -4,6 +4,7 @@ import (
 	"time"
 
 	"github.com/versity/versitygw/internal/zzvf"
+	"github.com/versity/versitygw/internal/zzvfos"
 )
 
 // reference account store (what the admin API acknowledged); may reject or fail requests
@@ -184,4 +185,152 @@ func VfIAMRace() {
 		zzvf.Assert(zzvf.And(got.Access == want.Access, got.Secret == want.Secret, got.Role == want.Role), "later-lookup-returns-the-acknowledged-secret-and-role")
 		zzvf.Assert(zzvf.And(got.UserID == want.UserID, got.GroupID == want.GroupID), "later-lookup-returns-the-acknowledged-ids")
 	}
+}
+
+// ---- the file-backed account store (auth/iam_internal.go) on the file-system model
+
+type vfRefResult struct {
+	state map[string]Account
+	errs  [2]bool
+}
+
+// vfRefApply is the specification of one account change on the reference state; it reports whether the call fails.
+func vfRefApply(state map[string]Account, kind int, key string, a Account, props MutableProps) bool {
+	switch kind {
+	case 0:
+		if _, ok := state[key]; ok {
+			return true
+		}
+		state[key] = a
+	case 1:
+		acc, ok := state[key]
+		if !ok {
+			return true
+		}
+		updateAcc(&acc, props)
+		state[key] = acc
+	case 2:
+		delete(state, key)
+	}
+	return false
+}
+
+func vfSameAccounts(got []Account, want map[string]Account) bool {
+	if len(got) != len(want) {
+		return false
+	}
+	for _, g := range got {
+		w, ok := want[g.Access]
+		if !ok || g.Secret != w.Secret || g.Role != w.Role || g.UserID != w.UserID || g.GroupID != w.GroupID {
+			return false
+		}
+	}
+	return true
+}
+
+// VfIAMFile: C17 – two concurrent account changes (create / update / delete, on the same or on two access keys) through one
+// gateway with the file-backed account store. The second request runs entirely at a scheduling point of the first one -
+// before any of its lock acquisitions or before any of its file-system steps - or after it; a nested request that needs a
+// lock the first one holds cannot run there (the schedule does not exist). Afterwards the stored accounts and the two
+// outcomes must be those of the two changes applied one after the other in one of the two orders (nothing lost, nothing
+// resurrected, file still readable).
+func VfIAMFile() {
+	zzvfos.New()
+	zzvfos.Mkdir("/iam", 0o755)
+	s := &IAMServiceInternal{dir: "/iam", rootAcc: Account{Access: "root", Secret: "r", Role: RoleAdmin}}
+	zzvf.Assert(s.initIAM() == nil, "setup-init")
+	keys := []string{"u1", "u2"}
+	init := map[string]Account{}
+	if zzvf.Choice("u1_exists_initially", 2) == 1 {
+		a := Account{Access: "u1", Secret: "s0", Role: RoleUser, UserID: 7, GroupID: 8}
+		zzvf.Assert(s.CreateAccount(a) == nil, "setup-create")
+		init["u1"] = a
+	}
+	var kind [2]int
+	var key [2]string
+	var acct [2]Account
+	var props [2]MutableProps
+	names := []string{"create", "update", "delete"}
+	for i, who := range []string{"first", "second"} {
+		kind[i] = zzvf.Choice(who+"_request", 3)
+		key[i] = keys[zzvf.Choice(who+"_key", 2)]
+		switch kind[i] {
+		case 0:
+			acct[i] = Account{Access: key[i], Secret: zzvf.StringN(who+"_secret", 1), Role: RoleUserPlus, UserID: zzvf.Int(who + "_uid"), GroupID: 5}
+		case 1:
+			sec := zzvf.StringN(who+"_new_secret", 1)
+			props[i].Secret = &sec
+			if zzvf.Choice(who+"_set_gid", 2) == 1 {
+				g := zzvf.Int(who + "_new_gid")
+				props[i].GroupID = &g
+			}
+		}
+		zzvf.Trace(who + " request: " + names[kind[i]] + " " + key[i])
+	}
+	var failed [2]bool
+	request := func(i int) {
+		var err error
+		switch kind[i] {
+		case 0:
+			err = s.CreateAccount(acct[i])
+		case 1:
+			err = s.UpdateUserAccount(key[i], props[i])
+		case 2:
+			err = s.DeleteUserAccount(key[i])
+		}
+		failed[i] = err != nil
+	}
+	// scheduling point of the second request: 0 = after the first; k>0 = at the k-th scheduling point (lock acquisition or
+	// file-system step) of the first
+	at := zzvf.Choice("second_runs_at_point", 12)
+	zzvf.Bound("scheduling_points_max", 11)
+	ran := false
+	if at == 0 {
+		request(0)
+		request(1)
+		ran = true
+	} else {
+		n := 0
+		point := func(what string) {
+			n++
+			if n == at && !ran {
+				ran = true
+				zzvf.Trace("second request runs inside the first one before its " + what)
+				hook := zzvfos.M.StepHook
+				zzvfos.M.StepHook = nil
+				zzvf.OnLock(nil)
+				request(1)
+				zzvfos.M.StepHook = hook
+			}
+		}
+		zzvfos.M.StepHook = func(op, path string) { point(op + " " + path) }
+		zzvf.OnLock(func(op string) { point(op) })
+		request(0)
+		zzvfos.M.StepHook = nil
+		zzvf.OnLock(nil)
+	}
+	if !ran {
+		return // the first request has fewer scheduling points
+	}
+	got, err := s.ListUserAccounts()
+	zzvf.Assert(err == nil, "account-file-readable-after-concurrent-changes")
+	if err != nil {
+		return
+	}
+	zzvf.Reach("both-requests-returned")
+	ok := false
+	for order := 0; order < 2; order++ {
+		st := map[string]Account{}
+		for k, v := range init {
+			st[k] = v
+		}
+		var f [2]bool
+		i, j := order, 1-order
+		f[i] = vfRefApply(st, kind[i], key[i], acct[i], props[i])
+		f[j] = vfRefApply(st, kind[j], key[j], acct[j], props[j])
+		if f == failed && vfSameAccounts(got, st) {
+			ok = true
+		}
+	}
+	zzvf.Assert(ok, "stored-accounts-and-outcomes-match-one-order-of-the-two-changes")
 }
